@@ -5,11 +5,15 @@ the model's `step` returns the very world it was given whenever its outcome is `
 every object, reference counters, initializer keys and order, name-authority counters and name sets.
 Round 4: `C06_rauw_many_atomic` (the multi-pair `convenience.replace_all_uses_with` as /repo has it since fix D82),
 `C06_view_atomic` (`GraphView`), and the model of the partial fix proposed for D83 (`Model/KernelFix.lean`).
+Wave 6: the rejection reasons the statement lists, one corollary each (`C06_rejects_*`: for ANY world - well formed
+or not - and any arguments meeting the decidable condition, the call raises and returns the world it was given), each
+with a reachable witness; `C06_retry`: a history with a rejected call in it is the history without it.
 -/
 import IrVerif.Lemmas.KernelFaithful
 import IrVerif.Model.KernelView
 import IrVerif.Model.KernelFix
 import IrVerif.Lemmas.KernelOps
+import IrVerif.Lemmas.KernelReject
 namespace IrVerif.Kernel
 
 theorem ioMut_atomic (w : World) (g : Nat) (kd : IOKind) (m : IOMut) (k : String)
@@ -192,6 +196,265 @@ example : (viewStep { w := exW } (.newView [0] [1] [0] [4])).2 = .raised "ValueE
 example : (viewStep (viewStep { w := exW } (.newView [0] [1] [0] [3])).1 (.initDel 0 "k")).2 = .raised "KeyError" := by decide
 /-- the rejected bulk update really was going to change something before its second entry -/
 example : (initUpdateSeq exW 0 [("a", 4), ("b", 4)]).1 ≠ exW := by decide
+
+/-! ### wave 6: the rejection reasons of the statement, one corollary each
+
+Every theorem: for ANY world (no well-formedness needed: these rejections are all decided by the up-front validation)
+and any arguments meeting the decidable condition, the call raises and returns the very world it was given.  The
+conditions (`offered`, `foreignTo`, `produced`, `offeredNodes`, `requiredMembers`, `foreignNode`, `notMember`) are in
+`Lemmas/KernelReject.lean`.  Each is followed by a reachable world (`exW` / `exW2` / `exCyc`, histories from
+`World.empty`) and arguments meeting the condition, checked by `decide`. -/
+
+/-- **C06_rejects_foreign_value**: a call that offers — as graph input, graph output or initializer, at any position
+of a multi-element argument — a value owned by ANOTHER graph raises and changes nothing.  Families (`offered`):
+`append / extend / insert / [i]= / [a:b:c]=` of the tracked input and output lists, `[key]= / add / setdefault /
+register_initializer` of the initializer mapping, `Graph(inputs, outputs, initializers=…)`, and
+`Value.replace_all_uses_with` on a graph output (the replacement would become an output of that graph). -/
+theorem C06_rejects_foreign_value (w : World) (op : Op)
+    (h : (offered w op).any (fun p => foreignTo w p.1 p.2.2) = true) : ∃ k, step w op = (w, .raised k) := by
+  rw [List.any_eq_true] at h
+  obtain ⟨p, hp, hf⟩ := h
+  exact step_rejects_offered w op ⟨p, hp, slotOK_foreign w _ _ _ hf⟩
+
+/-- **C06_rejects_produced_value**: a call that offers the output of a node as graph INPUT or as INITIALIZER (same
+families, any position) raises and changes nothing. -/
+theorem C06_rejects_produced_value (w : World) (op : Op)
+    (h : (offered w op).any (fun p => decide (p.2.1 ≠ Slot.out) && produced w p.2.2) = true) :
+    ∃ k, step w op = (w, .raised k) := by
+  rw [List.any_eq_true] at h
+  obtain ⟨p, hp, hf⟩ := h
+  simp only [Bool.and_eq_true, decide_eq_true_eq] at hf
+  exact step_rejects_offered w op ⟨p, hp, slotOK_produced w _ _ _ hf.1 hf.2⟩
+
+/-- **C06_rejects_foreign_node**: `append / extend / insert_after / insert_before / Graph(nodes=…)` with a node that
+belongs to ANOTHER graph (any position), an insertion whose anchor is not in this graph, and `remove` of a node that is
+not in this graph: `ValueError`, nothing changed. -/
+theorem C06_rejects_foreign_node (w : World) (op : Op)
+    (h : ((offeredNodes w op).any (fun p => foreignNode w p.1 p.2) ||
+          (requiredMembers op).any (fun p => notMember w p.1 p.2)) = true) :
+    step w op = (w, .raised "ValueError") := by
+  rw [Bool.or_eq_true, List.any_eq_true, List.any_eq_true] at h
+  exact step_rejects_node w op h
+
+/-- **C06_rejects_unsafe_removal**: `graph.remove(nodes, safe=True)` where an output of one of the nodes is a graph
+output or is still consumed by a node outside the removed set: `ValueError`, nothing changed (no input of any of the
+nodes was detached). -/
+theorem C06_rejects_unsafe_removal (w : World) (g : Nat) (ns : List Nat)
+    (h : ns.any (fun n => unsafeToRemove w g ns n) = true) :
+    step w (.remove g ns true) = (w, .raised "ValueError") := by
+  rw [List.any_eq_true] at h
+  obtain ⟨n, hn, hu⟩ := h
+  have := any_true_of_mem ns (fun n => decide ((w.node n).graph ≠ some g) || (true && unsafeToRemove w g ns n)) n hn
+    (by simp [hu])
+  simp only [step, graphRemove, guardOp]
+  rw [if_pos]
+  simpa using this
+
+/-- **C06_rejects_initializer_name_collision**: when `s` is the key of an initializer `other` of graph `g`,
+(1) renaming a different-named initializer of `g` to `s`, (2) `register_initializer` of another value named `s`,
+(3) `rename_values` sending two distinct initializers of one graph to one name — each raises, nothing changed. -/
+theorem C06_rejects_initializer_name_collision (w : World) (g v : Nat) (s : String) :
+    (∀ other, lookupInit (w.gr g).inits s = some other →
+      ((w.val v).isInit = true → (w.val v).graph = some g → (w.val v).name ≠ some s →
+        step w (.setName v (some s)) = (w, .raised "ValueError|AttributeError")) ∧
+      ((w.val v).name = some s → other ≠ v → step w (.init g (.register v)) = (w, .raised "ValueError"))) ∧
+    (∀ v2, v ≠ v2 → (w.val v).isInit = true → (w.val v2).isInit = true → (w.val v).graph = (w.val v2).graph →
+      stepConv w (.renameValues [v, v2] [s, s]) = (w, .raised "ValueError|AttributeError")) := by
+  refine ⟨fun other hk => ⟨fun hi hg hn => ?_, fun hn ho => ?_⟩, fun v2 hne hi hi2 hg => ?_⟩
+  · simp only [step, setName, guardOp]
+    rw [if_pos]
+    cases hname : (w.val v).name <;> simp_all
+  · simp only [step, initMut, guardOp]
+    rw [if_pos]
+    simp [hn, hk, ho]
+  · have hd : dedupPairs [] ([v, v2].zip [s, s]) = some [(v, s), (v2, s)] := by
+      simp [dedupPairs, hne]
+    simp only [stepConv, renameValues, List.length_cons, List.length_nil, ne_eq, not_true_eq_false, if_false, hd,
+      guardOp]
+    rw [if_pos]
+    simp [renameBad, hi, hi2, hg, hne, Ne.symm hne]
+
+/-- **C06_rejects_missing_name**: an initializer needs a non-empty name.  For a value without one (`None` or `""`):
+`initializers.add`, `register_initializer`, `Graph(initializers=[…, v, …])` and `GraphView(initializers=[…, v, …])`
+raise; so do `initializers[""] = v'` for any `v'`, and un-naming an initializer (`value.name = None` / `""`).
+Nothing changes. -/
+theorem C06_rejects_missing_name (w : World) (g v : Nat) (h : falsy (w.val v).name = true) :
+    step w (.init g (.add v)) = (w, .raised "TypeError|ValueError") ∧
+    step w (.init g (.register v)) = (w, .raised "ValueError") ∧
+    (∀ ins outs ns inits, v ∈ inits → step w (.newGraph ins outs ns inits) = (w, .raised "ValueError")) ∧
+    (∀ (vw : VWorld) ins outs ns inits, vw.w = w → v ∈ inits →
+      viewStep vw (.newView ins outs ns inits) = (vw, .raised "ValueError")) ∧
+    (∀ v', step w (.init g (.setItem "" v')) = (w, .raised "ValueError")) ∧
+    (∀ u s, (w.val u).isInit = true → (w.val u).name ≠ s → falsy s = true →
+      step w (.setName u s) = (w, .raised "ValueError|AttributeError")) := by
+  refine ⟨?_, ?_, fun ins outs ns inits hv => newGraph_rejects_unnamed w ins outs ns inits v hv h,
+    fun vw ins outs ns inits hw hv => ?_, fun v' => ?_, fun u s hi hn hs => ?_⟩
+  · simp only [step, initMut, guardOp]
+    rw [if_pos]
+    unfold falsy at h
+    cases hn : (w.val v).name <;> simp_all [initOK]
+  · simp only [step, initMut, guardOp]
+    rw [if_pos]
+    unfold falsy at h
+    cases hn : (w.val v).name <;> simp_all
+  · subst hw
+    have := any_true_of_mem inits (fun v => falsy (vw.w.val v).name) v hv h
+    simp only [viewStep, this, if_true]
+  · simp [step, initMut, initSetItem, guardOp, initOK]
+  · simp only [step, setName, guardOp]
+    rw [if_pos]
+    unfold falsy at hs
+    cases s with
+    | none => simp_all
+    | some s' =>
+      simp at hs
+      subst hs
+      cases hname : (w.val u).name <;> cases hgr : (w.val u).graph <;> simp_all
+
+/-- **C06_rejects_index_out_of_range**: `replace_input_with(idx, …)` outside `0 ≤ idx < len(inputs)`, a negative
+`resize_inputs`, and `pop(i)` / `del lst[i]` / `lst[i] = v` on a tracked list outside `-len ≤ i < len` raise; nothing
+changed. -/
+theorem C06_rejects_index_out_of_range (w : World) :
+    (∀ n (idx : Int) nv, (idx < 0 ∨ idx ≥ (w.node n).inputs.length) →
+      step w (.replaceInput n idx nv) = (w, .raised "ValueError")) ∧
+    (∀ n (k : Int), k < 0 → step w (.resizeInputs n k) = (w, .raised "ValueError")) ∧
+    (∀ g kd (i : Int), (i < -((ioList kd (w.gr g)).length : Int) ∨ i ≥ (ioList kd (w.gr g)).length) →
+      step w (.io g kd (.pop i)) = (w, .raised "IndexError") ∧
+      step w (.io g kd (.delItem i)) = (w, .raised "IndexError") ∧
+      ∀ v, step w (.io g kd (.setItem i v)) = (w, .raised "IndexError|ValueError")) := by
+  refine ⟨fun n idx nv h => ?_, fun n k h => ?_, fun g kd i h => ?_⟩
+  · simp only [step, replaceInput, guardOp]
+    rw [if_pos]
+    simpa using h
+  · simp only [step, resizeInputs, guardOp]
+    rw [if_pos]
+    simpa using h
+  · have hn : normIndex (ioList kd (w.gr g)).length i = none := by
+      unfold normIndex
+      simp only
+      split <;> rename_i hneg <;> rw [if_pos] <;> omega
+    refine ⟨?_, ?_, fun v => ?_⟩ <;> simp [step, ioMut, guardOp, hn]
+
+/-- **C06_rejects_sort_cycle**: when C12's sort model finds no order for the tree read off the world (a dependency
+cycle anywhere in the nest — `C12_cycle_iff_lifted` — or a graph object shared between two attributes),
+`graph.sort()` raises `ValueError` and no graph of the nest is re-linked. -/
+theorem C06_rejects_sort_cycle (w : World) (g : Nat) (h : Sort.sortModel (treeOf w g) = none) :
+    step w (.sort g) = (w, .raised "ValueError") := by
+  simp only [step, graphSort, h]
+
+/-- **C06_rejects_shrink_with_uses**: `resize_outputs(k)` that would drop an output which still has a consumer raises
+`ValueError`; no output was detached (also not the unused ones after it). -/
+theorem C06_rejects_shrink_with_uses (w : World) (n : Nat) (k : Int)
+    (h : ((w.node n).outputs.drop
+        (if k < 0 then (((w.node n).outputs.length : Int) + k).toNat else k.toNat)).any
+          (fun v => decide ((w.val v).uses ≠ [])) = true) :
+    step w (.resizeOutputs n k) = (w, .raised "ValueError") := by
+  simp only [step, resizeOutputs, guardOp]
+  rw [if_pos]
+  exact h
+
+/-- **C06_retry**: a history in which an all-or-nothing call (`atomicCall`: any single call, `rename_values`, the
+multi-pair `replace_all_uses_with`) was rejected is the history without that call: the same final world, and the same
+outcome for every other call — the outcome list is that of the shorter history with the rejection inserted at its
+place.  So a caller that catches the exception can go on (retry, or do something else) exactly as if the rejected call
+had never been made. -/
+theorem C06_retry (ops1 ops2 : List AnyOp) (bad : AnyOp) (k : String) (hat : atomicCall bad = true)
+    (h : (stepAny (runAny ops1) bad).2 = .raised k) :
+    runAny (ops1 ++ [bad] ++ ops2) = runAny (ops1 ++ ops2) ∧
+    outcomesAny (ops1 ++ [bad] ++ ops2) =
+      (outcomesAny (ops1 ++ ops2)).take ops1.length ++ [.raised k] ++ (outcomesAny (ops1 ++ ops2)).drop ops1.length := by
+  have hwf : WF (runAny ops1) := runAny_WF ops1
+  have hsame : (stepAny (runAny ops1) bad).1 = runAny ops1 := by
+    match bad, hat with
+    | .one op, _ => exact C06_atomic _ op k hwf h
+    | .conv (.renameValues vs names), _ => exact C06_rename_values_atomic _ hwf vs names k h
+    | .conv (.rauwManyExact vs rs rgo), _ => exact C06_rauw_many_atomic _ hwf vs rs rgo k h
+  have hrun : runFrom World.empty (ops1 ++ [bad]) = runFrom World.empty ops1 := by
+    rw [runFrom_append]
+    exact hsame
+  have hlen : (outcomesFrom World.empty ops1).length = ops1.length := outcomesFrom_length _ _
+  constructor
+  · simp only [runAny_eq]
+    rw [runFrom_append, hrun, ← runFrom_append]
+  · simp only [outcomesAny]
+    rw [outcomesFrom_append (ops1 ++ [bad]) ops2, hrun, outcomesFrom_append ops1 [bad], outcomesFrom_append ops1 ops2,
+      List.take_left' hlen, List.drop_left' hlen]
+    simp only [outcomesFrom]
+    rw [← runAny_eq, h]
+
+/-! #### non-vacuity of the wave-6 corollaries: reachable worlds and arguments meeting each condition -/
+
+/-- `exW` plus a second initializer `k = v4` of `g0` and a free value `v5` named like the first one -/
+def exW2 : World := run
+  [ .newValue (some "x"),                                        -- v0
+    .newNode "A" (some "n0") [some 0] (some 1) none none,        -- n0, v1
+    .newNode "B" (some "n1") [some 1] none none none,            -- n1, v2
+    .newValue (some "w"),                                        -- v3
+    .newGraph [0] [1] [0] [3],                                   -- g0
+    .newGraph [] [] [1] [],                                      -- g1
+    .newValue none,                                              -- v4
+    .init 0 (.setItem "k" 4),                                    -- g0.initializers = {w: v3, k: v4}
+    .newValue (some "w"),                                        -- v5
+    .newValue none ]                                             -- v6
+
+example : (exW2.gr 0).inits = [("w", 3), ("k", 4)] := by decide
+
+-- foreign value: `v0` belongs to `g0`; offered to `g1` alone, inside an `extend`, as initializer, to a new graph
+example : (offered exW (.io 1 .inp (.append 0))).any (fun p => foreignTo exW p.1 p.2.2) = true := by decide
+example : step exW (.io 1 .inp (.append 0)) = (exW, .raised "ValueError") := by decide
+example : (offered exW (.io 1 .out (.extend [4, 0]))).any (fun p => foreignTo exW p.1 p.2.2) = true := by decide
+example : (offered exW (.init 1 (.setItem "x" 0))).any (fun p => foreignTo exW p.1 p.2.2) = true := by decide
+example : (offered exW (.newGraph [4] [0] [] [])).any (fun p => foreignTo exW p.1 p.2.2) = true := by decide
+-- produced value: `v1 = n0.out` offered as input of `g0`, as initializer, as input of a new graph
+example : (offered exW (.io 0 .inp (.append 1))).any (fun p => decide (p.2.1 ≠ Slot.out) && produced exW p.2.2) = true := by
+  decide
+example : step exW (.io 0 .inp (.append 1)) = (exW, .raised "ValueError") := by decide
+example : (offered exW (.init 0 (.setItem "y" 2))).any (fun p => decide (p.2.1 ≠ Slot.out) && produced exW p.2.2) = true := by
+  decide
+example : (offered exW (.newGraph [4, 2] [] [] [])).any (fun p => decide (p.2.1 ≠ Slot.out) && produced exW p.2.2) = true := by
+  decide
+-- foreign node: `n1 ∈ g1` appended to `g0`; anchor `n1` not in `g0`; removal of `n1` from `g0`
+example : ((offeredNodes exW (.append 0 1)).any (fun p => foreignNode exW p.1 p.2) ||
+    (requiredMembers (.append 0 1)).any (fun p => notMember exW p.1 p.2)) = true := by decide
+example : step exW (.append 0 1) = (exW, .raised "ValueError") := by decide
+example : ((offeredNodes exW (.insertAfter 0 1 [])).any (fun p => foreignNode exW p.1 p.2) ||
+    (requiredMembers (.insertAfter 0 1 [])).any (fun p => notMember exW p.1 p.2)) = true := by decide
+example : ((offeredNodes exW (.remove 0 [0, 1] false)).any (fun p => foreignNode exW p.1 p.2) ||
+    (requiredMembers (.remove 0 [0, 1] false)).any (fun p => notMember exW p.1 p.2)) = true := by decide
+-- unsafe removal: `n0.out = v1` is an output of `g0` and consumed by `n1`
+example : [0].any (fun n => unsafeToRemove exW 0 [0] n) = true := by decide
+example : step exW (.remove 0 [0] true) = (exW, .raised "ValueError") := by decide
+-- initializer name collision: `w` is the key of `v3` in `g0`; `v4` is the initializer `k`; `v5` is named `w`
+example : lookupInit (exW2.gr 0).inits "w" = some 3 ∧ (exW2.val 4).isInit = true ∧ (exW2.val 4).graph = some 0 ∧
+    (exW2.val 4).name ≠ some "w" ∧ (exW2.val 5).name = some "w" ∧ 3 ≠ 5 ∧ (3 : Nat) ≠ 4 ∧ (exW2.val 3).isInit = true ∧
+    (exW2.val 3).graph = (exW2.val 4).graph := by decide
+example : step exW2 (.setName 4 (some "w")) = (exW2, .raised "ValueError|AttributeError") := by decide
+example : step exW2 (.init 0 (.register 5)) = (exW2, .raised "ValueError") := by decide
+example : stepConv exW2 (.renameValues [3, 4] ["z", "z"]) = (exW2, .raised "ValueError|AttributeError") := by decide
+-- missing name: `v6` has none
+example : falsy (exW2.val 6).name = true ∧ (exW2.val 4).isInit = true ∧ (exW2.val 4).name ≠ none := by decide
+example : step exW2 (.init 0 (.add 6)) = (exW2, .raised "TypeError|ValueError") := by decide
+example : step exW2 (.newGraph [] [] [] [6]) = (exW2, .raised "ValueError") := by decide
+example : step exW2 (.setName 4 none) = (exW2, .raised "ValueError|AttributeError") := by decide
+-- index out of range: `n1` has one input; `g0` has one input
+example : ((5 : Int) < 0 ∨ (5 : Int) ≥ (exW.node 1).inputs.length) ∧
+    ((-2 : Int) < -((ioList .inp (exW.gr 0)).length : Int) ∨ (-2 : Int) ≥ (ioList .inp (exW.gr 0)).length) := by decide
+example : step exW (.replaceInput 1 5 none) = (exW, .raised "ValueError") := by decide
+example : step exW (.io 0 .inp (.pop (-2))) = (exW, .raised "IndexError") := by decide
+-- sort cycle: `n0 <-> n1` in one graph
+example : Sort.sortModel (treeOf exCyc 0) = none := by decide
+example : step exCyc (.sort 0) = (exCyc, .raised "ValueError") := by decide
+-- shrink with uses: `n0.out = v1` is consumed by `n1`
+example : ((exW.node 0).outputs.drop (if (0 : Int) < 0 then (((exW.node 0).outputs.length : Int) + 0).toNat
+    else (0 : Int).toNat)).any (fun v => decide ((exW.val v).uses ≠ [])) = true := by decide
+example : step exW (.resizeOutputs 0 0) = (exW, .raised "ValueError") := by decide
+-- retry: the rejected `append` in the middle of a history; the same world, the outcome list with one more entry
+example : atomicCall (.one (.io 1 .inp (.append 0))) = true ∧
+    (stepAny (runAny [.one (.newValue (some "x")), .one (.newGraph [0] [] [] []), .one (.newGraph [] [] [] [])])
+      (.one (.io 1 .inp (.append 0)))).2 = .raised "ValueError" := by decide
+example : outcomesAny [.one (.newValue (some "x")), .one (.newGraph [0] [] [] []), .one (.newGraph [] [] [] []),
+      .one (.io 1 .inp (.append 0)), .one (.io 1 .out (.append 0))] =
+    [.ok, .ok, .ok, .raised "ValueError", .raised "ValueError"] := by decide
 
 /-! ### the partial fix proposed for D83 (`proposed_fixes/D83-partial.diff`, model `Model/KernelFix.lean`)
 
